@@ -39,23 +39,19 @@ func refTiffSearch(s []byte) (off int, bo utils.ByteOrder, ifd uint32, ok bool) 
 	return 0, 0, 0, false
 }
 
+var c12Offsets = []uint32{8, 0x01020304, 0xFFFFFFFF, 0xFFFFFFFE, 0x80000000, 0, 0xFFFFF000}
+
 func c12Tail(hdr, off, tail int) []byte {
 	var b []byte
+	var o [4]byte
 	if hdr == 0 {
 		b = append(b, 'I', 'I', '*', 0)
-		if off == 0 {
-			b = append(b, 8, 0, 0, 0)
-		} else {
-			b = append(b, 4, 3, 2, 1)
-		}
+		binary.LittleEndian.PutUint32(o[:], c12Offsets[off])
 	} else {
 		b = append(b, 'M', 'M', 0, '*')
-		if off == 0 {
-			b = append(b, 0, 0, 0, 8)
-		} else {
-			b = append(b, 1, 2, 3, 4)
-		}
+		binary.BigEndian.PutUint32(o[:], c12Offsets[off])
 	}
+	b = append(b, o[:]...)
 	switch tail {
 	case 0:
 		b = append(b, bytes.Repeat([]byte{'x'}, 24)...)
@@ -145,7 +141,7 @@ func init() {
 				if i == L {
 					for off := 0; off < 2; off++ {
 						for tail := 0; tail < c12Tails; tail++ {
-							if tail == 4 && (hdr == 1 || off == 1) {
+							if tail == 4 && (hdr == 1 || off >= 1) {
 								continue
 							}
 							n++
@@ -176,7 +172,7 @@ func init() {
 		pre := bytes.Repeat([]byte(pat), L/len(pat)+1)[:L]
 		fs := newFailSet("tiff.ScanTiffHeader.long-prefix")
 		n := 0
-		for off := 0; off < 2; off++ {
+		for off := 0; off < len(c12Offsets); off++ {
 			for tail := 0; tail < c12Tails; tail++ {
 				n++
 				c12Check(append(append([]byte{}, pre...), c12Tail(hdr, off, tail)...), fs)
@@ -196,7 +192,7 @@ func init() {
 		pre := bytes.Repeat([]byte(pat), L/len(pat)+1)[:L]
 		fs := newFailSet("tiff.ScanTiffHeader.prefix-length")
 		n := 0
-		for off := 0; off < 2; off++ {
+		for off := 0; off < len(c12Offsets); off++ {
 			for tail := 0; tail < c12Tails; tail++ {
 				n++
 				c12Check(append(append([]byte{}, pre...), c12Tail(hdr, off, tail)...), fs)
@@ -218,7 +214,7 @@ func init() {
 		pre := append(append([]byte{}, hheads[hi][:cut]...), bytes.Repeat([]byte{'x'}, gap)...)
 		fs := newFailSet("tiff.ScanTiffHeader.foreign-header-prefix")
 		n := 0
-		for off := 0; off < 2; off++ {
+		for off := 0; off < len(c12Offsets); off++ {
 			for tail := 0; tail < c12Tails; tail++ {
 				n++
 				c12Check(append(append([]byte{}, pre...), c12Tail(hdr, off, tail)...), fs)
@@ -238,7 +234,7 @@ func init() {
 			}
 			return []mc.Space{
 				{Name: "short-prefixes", H: hShort(maxLen), NoLevels: true,
-					Rule: fmt.Sprintf("every prefix over {I,M,*,0x00,x} of length <= %d x header {II,MM} x first-IFD offset {8,0x01020304} x tail {28 bytes, 27 bytes, 4 KiB, later signatures, no header}; one execution per (length, first 3 symbols, header), the rest enumerated natively", maxLen)},
+					Rule: fmt.Sprintf("every prefix over {I,M,*,0x00,x} of length <= %d x header {II,MM} x first-IFD offset {8, 0x01020304, 0xFFFFFFFF, 0xFFFFFFFE, 0x80000000, 0, 0xFFFFF000} x tail {28 bytes, 27 bytes, 4 KiB, later signatures, no header}; one execution per (length, first 3 symbols, header), the rest enumerated natively", maxLen)},
 				{Name: "all-prefix-lengths", H: hLen, NoLevels: true,
 					Rule: "every prefix length 0..300 x 9 filler patterns (plain bytes, single letters, mixed marks MI\\0* / IM*\\0, partial signatures) x header x first-IFD offset x tails"},
 				{Name: "foreign-header-prefixes", H: hForeign, NoLevels: true,
